@@ -1,5 +1,80 @@
+import OpusModel.Repack
 import Driver.Util
-/- Suite stub — replaced by the owner of this suite. -/
+import Driver.SuiteExt
+/- Suite `repack`: src/repacketizer.c.
+
+   repack seq <op> <op> …       one repacketizer, ops (fields separated by '/'):
+        i | n | c/x<packet> | o/<maxlen> | r/<begin>/<end>/<maxlen> | R/<begin>/<end>/<maxlen>/<sd>/<pad>/<exts>
+        → ops=<k> then one token per op: - | <nb_frames> | OK/err | <ret>:x<bytes> / err
+   repack pad x<packet> <new_len>                     → OK x<bytes> | err
+   repack unpad x<packet>                             → <ret> x<bytes> | err
+   repack mspad x<packet> <new_len> <nb_streams>      → OK x<bytes> | err
+   repack msunpad x<packet> <nb_streams>              → <ret> x<bytes> | err
+   repack padimpl x<packet> <new_len> <pad> <exts>    → <ret> x<bytes> | err               -/
 namespace Driver.SuiteRepack
-def handle (_ : List String) : String := "bad-op"
+open Opus Opus.Repack Driver
+
+def outStr (r : Res Bytes) : String :=
+  match r with
+  | .ok bs => s!"{bs.length}:{toHex bs}"
+  | .err e => errStr e
+  | .oob => "OOB"
+  | .abort => "ABORT"
+
+def codeStr (r : Res Unit) : String := resStr (fun _ => "OK") r
+
+def runOps : Rp → List String → List String → Option (List String)
+  | _, [], acc => some acc.reverse
+  | rp, op :: ops, acc =>
+    match op.splitOn "/" with
+    | ["i"] => runOps (init rp) ops ("-" :: acc)
+    | ["n"] => runOps rp ops (toString (getNbFrames rp) :: acc)
+    | ["c", hex] =>
+      match parseHex hex with
+      | some bs => let (rp', r) := cat rp bs; runOps rp' ops (codeStr r :: acc)
+      | none => none
+    | ["o", ml] =>
+      match parseInt ml with
+      | some ml => runOps rp ops (outStr (out rp ml) :: acc)
+      | none => none
+    | ["r", b, e, ml] =>
+      match parseInt b, parseInt e, parseInt ml with
+      | some b, some e, some ml => runOps rp ops (outStr (outRange rp b e ml) :: acc)
+      | _, _, _ => none
+    | ["R", b, e, ml, sd, pad, exts] =>
+      match parseInt b, parseInt e, parseInt ml, parseNat sd, parseNat pad, SuiteExt.parseExtList exts with
+      | some b, some e, some ml, some sd, some pad, some exts =>
+        runOps rp ops (outStr (outRangeImpl rp b e ml (sd != 0) (pad != 0) exts) :: acc)
+      | _, _, _, _, _, _ => none
+    | _ => none
+
+def handle : List String → String
+  | "seq" :: ops =>
+    match runOps Rp.empty ops [] with
+    | some l => s!"ops={l.length}" ++ String.join (l.map (" " ++ ·))
+    | none => "bad-op"
+  | ["pad", hex, nl] =>
+    match parseHex hex, parseInt nl with
+    | some bs, some nl => resStr (fun o => "OK " ++ toHex o) (packetPad bs nl)
+    | _, _ => "bad-op"
+  | ["unpad", hex] =>
+    match parseHex hex with
+    | some bs => resStr (fun o => s!"{o.length} {toHex o}") (packetUnpad bs)
+    | none => "bad-op"
+  | ["mspad", hex, nl, ns] =>
+    match parseHex hex, parseInt nl, parseInt ns with
+    | some bs, some nl, some ns => resStr (fun o => "OK " ++ toHex o) (msPad bs nl ns)
+    | _, _, _ => "bad-op"
+  | ["msunpad", hex, ns] =>
+    match parseHex hex, parseInt ns with
+    | some bs, some ns => resStr (fun o => s!"{o.length} {toHex o}") (msUnpad bs ns)
+    | _, _ => "bad-op"
+  | ["padimpl", hex, nl, pad, exts] =>
+    match parseHex hex, parseInt nl, parseNat pad, SuiteExt.parseExtList exts with
+    | some bs, some nl, some pad, some exts =>
+      let same := (bs.length : Int) = nl ∧ bs.length ≥ 1
+      resStr (fun o => s!"{if same then 0 else o.length} {toHex o}") (padImpl bs nl (pad != 0) exts)
+    | _, _, _, _ => "bad-op"
+  | _ => "bad-op"
+
 end Driver.SuiteRepack
